@@ -551,7 +551,7 @@ func openTimeLockTraces(r *core.Run) []*core.Trace {
 				core.Event{"ev": "WCall", "p": "w2"}, core.Event{"ev": "WAcq", "p": "w2"},
 				core.Event{"ev": "WRollback", "p": "w2", "sh": int(sh), "pe": pe, "res": res})
 			f2.Close()
-		case <-time.After(3 * time.Second):
+		case <-time.After(10 * time.Second):
 			sh, pe, res := lockProbe(f2)
 			tr.Events = append(tr.Events, core.Event{"ev": "Stuck", "p": "r1", "problem": "BeginReadonly/Begin blocked after Open returned",
 				"sh": int(sh), "pe": pe, "res": res})
